@@ -1,6 +1,6 @@
 """C06 -- n-gram / skip-gram / edge-list matrices hold exact counts; '+' merges models."""
-from harness import cls_ngram
+from harness import cls_ngram, cls_edgelist
 
 
 def cases(tier):
-    return cls_ngram.ngram_cases(tier, ["C06", "C01", "C02"]) + cls_ngram.add_cases(tier)
+    return cls_ngram.ngram_cases(tier, ["C06", "C01", "C02"]) + cls_ngram.add_cases(tier) + cls_edgelist.cases(tier)
